@@ -352,6 +352,39 @@ func main() {
 		}
 	}
 
+	// ---- multiFlags (BindFlagsToEnv): what the scans do at a nil member ----
+	changedNil, valueNil := "NilSkip", "NilSkip"
+	{
+		t := bodyText("multiFlags.HasChanged")
+		switch {
+		case t == `for i := range m.flags { flag := m.flags[i] if flag != nil && flag.Changed { return true } } ; return false`:
+		case regexp.MustCompile(`^for i := range m\.flags \{ flag := m\.flags\[i\] if flag == nil \{ continue \} if flag\.Changed \{ return true \} \} ; return false$`).MatchString(t):
+		case regexp.MustCompile(`^for i := range m\.flags \{ flag := m\.flags\[i\] if flag == nil \{ (break|return false) \} if flag\.Changed \{ return true \} \} ; return false$`).MatchString(t):
+			changedNil = "NilStop"
+		default:
+			die("multiFlags.HasChanged: %s", t)
+		}
+		t = bodyText("multiFlags.ValueString")
+		head, tail := `var values []string ; var firstValue string ; for i := range m.flags { flag := m.flags[i] `, ` } ; values = collection.UniqueEntries(values) ; if len(values) >= 1 { return values[0] } else { return firstValue }`
+		switch t {
+		case head + `if flag != nil { firstValue = flag.Value.String() if flag.Changed { values = append(values, flag.Value.String()) } }` + tail,
+			head + `if flag == nil { continue } firstValue = flag.Value.String() if flag.Changed { values = append(values, flag.Value.String()) }` + tail:
+		case head + `if flag == nil { break } firstValue = flag.Value.String() if flag.Changed { values = append(values, flag.Value.String()) }` + tail:
+			valueNil = "NilStop"
+		default:
+			die("multiFlags.ValueString: %s", t)
+		}
+		if t := bodyText("multiFlags.ValueType"); t != `for i := range m.flags { flag := m.flags[i] if flag != nil { vType := flag.Value.Type() if vType != "" { return vType } } } ; return ""` {
+			die("multiFlags.ValueType: %s", t)
+		}
+		if t := bodyText("BindFlagsToEnv"); t != `setEnvOptions(viperSession, envVarPrefix) ; shortKey, cleansedEnvVar := generateEnvVarConfigKeys(envVar, envVarPrefix) ; flagset, err := newMultiFlags(shortKey, flags...) ; if err != nil { return } ; err = viperSession.BindFlagValue(shortKey, flagset) ; if err != nil { return } ; err = viperSession.BindEnv(shortKey, cleansedEnvVar) ; return` {
+			die("BindFlagsToEnv: %s", t)
+		}
+		if t := bodyText("BindFlagToEnv"); t != `setEnvOptions(viperSession, envVarPrefix) ; shortKey, cleansedEnvVar := generateEnvVarConfigKeys(envVar, envVarPrefix) ; err = viperSession.BindPFlag(shortKey, flag) ; if err != nil { return } ; err = viperSession.BindEnv(shortKey, cleansedEnvVar) ; return` {
+			die("BindFlagToEnv: %s", t)
+		}
+	}
+
 	// ---- flattenDefaultsMap ----
 	m = match(`output := make\(map\[string\]interface\{\}\) ; for key, value := range m \{ switch child := value\.\(type\) \{ case map\[string\]interface\{\}: next := flattenDefaultsMap\(child\) for nextKey, nextValue := range next \{ output\[(strings\.ToUpper\()?fmt\.Sprintf\("%s(.)%s", key, nextKey\)\)?\] = nextValue \} default: output\[(strings\.ToUpper\(key\)|key)\] = value \} \} ; return output`,
 		bodyText("flattenDefaultsMap"), "flattenDefaultsMap")
@@ -431,8 +464,8 @@ func main() {
 	o.WriteString("(* GENERATED by translator-c15/cmd/cfgfacts2coq from utils/config/{service_configuration,validation,error}.go of the\n   repository's working tree — DO NOT EDIT; regenerated on every run of ./check C15. *)\n")
 	o.WriteString("From Coq Require Import List ZArith.\nImport ListNotations.\nFrom GU Require Import C15.Facts.\nLocal Open Scope Z_scope.\n\n")
 	o.WriteString("Definition gen_facts : facts := {|\n")
-	fmt.Fprintf(&o, "  lf := {| l_steps := [%s];\n           l_allow_empty_env := %s; l_automatic_env := %s; l_link_skips_flagkeys := %s; l_link_strips_prefix := %s;\n           l_set_when_isset := true; l_guard_default_nonempty := %s; l_guard_current_empty := %s |};\n",
-		strings.Join(steps, "; "), b(allowEmpty), b(automatic), b(skipsFlagKeys), b(strips), b(guardNonEmpty), b(guardCurrentEmpty))
+	fmt.Fprintf(&o, "  lf := {| l_steps := [%s];\n           l_allow_empty_env := %s; l_automatic_env := %s; l_link_skips_flagkeys := %s; l_link_strips_prefix := %s;\n           l_set_when_isset := true; l_guard_default_nonempty := %s; l_guard_current_empty := %s;\n           l_multi_changed_nil := %s; l_multi_value_nil := %s |};\n",
+		strings.Join(steps, "; "), b(allowEmpty), b(automatic), b(skipsFlagKeys), b(strips), b(guardNonEmpty), b(guardCurrentEmpty), changedNil, valueNil)
 	fmt.Fprintf(&o, "  kf := {| k_env_replacer := [%s];\n           k_cmp_envvar_lowered := %s; k_cmp_prefix_lowered := %s; k_trim_envvar_lowered := %s; k_trim_prefix_lowered := %s;\n           k_trim_sep := %s; k_else_lowered := %s;\n           k_flagprefix := %s;\n           k_key_sep := %d; k_key_repl := %s; k_cl_sep := %d; k_cl_repl := %s; k_cl_upper := %s; k_cl_empty_prefix_bare := %s |};\n",
 		strings.Join(er, "; "), b(cmpEnv), b(cmpPre), b(trimEnv), b(trimPre), trimSep, b(elseLow), zlist(flagPrefix), keySep, pair(keyRepl), clSep, pair(clRepl), b(clUpper), b(clBare))
 	fmt.Fprintf(&o, "  nf := {| n_flat_upper_leaf := %s; n_flat_upper_nested := %s; n_flat_sep := %d;\n           n_det_prefix_upper := %s; n_det_sep := %d; n_det_empty_prefix_bare := %s |};\n",
